@@ -101,7 +101,7 @@ theorem throw_ne_ok {α : Type} {e : Exc} {b : α} (h : (throw e : M α) = .ok b
 theorem visitLit_tx (l : Lit) : TxOnly (visitLit l) := by
   cases l with
   | str ok => cases ok <;> simp [visitLit, decodeEscapes] <;> first | exact TxOnly.throw rfl | exact TxOnly.pure _
-  | re ok => cases ok <;> simp [visitLit, reCompile] <;> first | exact TxOnly.throw rfl | exact TxOnly.pure _
+  | re r => cases r <;> simp [visitLit, reCompile] <;> first | exact TxOnly.throw rfl | exact TxOnly.pure _
 
 theorem visitMods_tx : ∀ ms : List Mod, TxOnly (visitMods ms)
   | [] => TxOnly.pure _
@@ -1218,5 +1218,42 @@ def resolveCrossUnfixed (env : Env) (st : St) : Nat → String → M Unit
 /-- what the first pass leaves for the grammar `A: A;` -/
 def selfAlias : St :=
   { ns := [{ name := "A", attrs := [], peg := .cross "A" false }], refs := [], top := .cross "A" false }
+
+/-! ## seeded change C23-1: only the reference the walk started from is remembered -/
+
+/-- `_resolve_rule` on a `RuleCrossRef` when only the first followed rule is
+remembered (`rule is alias_start` instead of `rule in alias_chain`): a cycle that
+contains the start is still reported, a cycle behind a tail is not -/
+def resolveCrossStartOnly (env : Env) (st : St) : Nat → Option String → String → M Unit
+  | 0, _, _ => throw (.py .recursionError)
+  | f + 1, start, name => do
+      let found ← contains env st name
+      if !found then throw .semantic
+      else do
+        let cr ← getitem env st name
+        match cr with
+        | .loc c =>
+            match c.peg with
+            | .cross n2 _ =>
+                if start == some c.name then throw .semantic
+                else resolveCrossStartOnly env st f (some (start.getD c.name)) n2
+            | .node .. => pure ()
+        | _ => pure ()
+
+/-- what the first pass leaves for the grammar `A: B; B: C; C: B;` (a tail `A`
+leading into the cycle `B → C → B`) -/
+def rhoAlias : St :=
+  { ns := [{ name := "A", attrs := [], peg := .cross "B" false },
+           { name := "B", attrs := [], peg := .cross "C" false },
+           { name := "C", attrs := [], peg := .cross "B" false }],
+    refs := [], top := .cross "B" false }
+
+/-! ## seeded change C23-2: the handler of `visit_re_match` narrowed to `except re.error` -/
+
+def visitReNarrow (r : Option PyExc) : M Unit :=
+  match reCompile r with
+  | .ok _ => pure ()
+  | .error (.py .reError) => throw .syntax
+  | .error e => throw e
 
 end GramLoad
